@@ -6,6 +6,7 @@ import (
 	"reflect"
 	"runtime/debug"
 	"strings"
+	"sync"
 	"sync/atomic"
 	"time"
 
@@ -72,6 +73,7 @@ type Context struct {
 	behaviorStack *BehaviorStack                     // 行为栈
 	mailbox       vivid.Mailbox                      // 邮箱
 	children      map[vivid.ActorPath]vivid.ActorRef // 懒加载的子 Actor 引用
+	childrenLock  sync.Mutex                         // 保护 children：根 Actor 的 ActorOf 可由任意协程调用（System.ActorOf），与其邮箱协程上的子 Actor 死亡处理并发
 	envelop       vivid.Envelop                      // 当前 ActorContext 的消息
 	state         int32                              // 状态
 	zombie        bool                               // 是否为僵尸状态
@@ -175,10 +177,12 @@ func (c *Context) ActorOf(actor vivid.Actor, options ...vivid.ActorOption) (vivi
 		return nil, vivid.ErrorActorAlreadyExists.WithMessage(childCtx.Ref().GetPath())
 	}
 
+	c.childrenLock.Lock()
 	if c.children == nil {
 		c.children = make(map[vivid.ActorPath]vivid.ActorRef)
 	}
 	c.children[childCtx.Ref().GetPath()] = childCtx.Ref()
+	c.childrenLock.Unlock()
 
 	c.tell(true, childCtx.Ref(), new(vivid.OnLaunch))
 	c.Logger().Debug("actor spawned", log.String("path", childCtx.Ref().GetPath()))
@@ -550,7 +554,7 @@ func (c *Context) doKill(message *vivid.OnKill, behavior vivid.Behavior) {
 	c.system.removeFuturesByAgentPath(c.ref.GetPath(), vivid.ErrorActorDeaded)
 
 	// 等待所有子 Actor 结束，假设是重启，子 Actor 不应该跟随重启，应该由父节点决定是否重启
-	for _, child := range c.children {
+	for _, child := range c.Children() {
 		c.Logger().Debug("notify child kill", log.String("path", child.GetPath()))
 		c.Kill(child, message.Poison, message.Reason)
 	}
@@ -582,7 +586,7 @@ func (c *Context) onKilled(message *vivid.OnKilled, behavior vivid.Behavior) {
 		if !message.Ref.Equals(c.ref) {
 			// 僵尸仅由针对自身的 Kill（或父级终止时的 Kill）释放；其子节点、被监听者的死亡通知不应将其释放，
 			// 否则每收到一条 OnKilled 都会再次向父级与监听者通告自身死亡（相互监听的僵尸之间会无休止地互相通告）
-			delete(c.children, message.Ref.GetPath())
+			c.removeChild(message.Ref.GetPath())
 			return
 		}
 		handler.shouldContinue = true
@@ -652,11 +656,28 @@ func (c *Context) Kill(ref vivid.ActorRef, poison bool, reason ...string) {
 }
 
 func (c *Context) Children() vivid.ActorRefs {
+	c.childrenLock.Lock()
+	defer c.childrenLock.Unlock()
 	children := make(vivid.ActorRefs, 0, len(c.children))
 	for _, child := range c.children {
 		children = append(children, child)
 	}
 	return children
+}
+
+// removeChild 移除子 Actor 引用并返回剩余的子 Actor 数量。
+func (c *Context) removeChild(path vivid.ActorPath) int {
+	c.childrenLock.Lock()
+	defer c.childrenLock.Unlock()
+	delete(c.children, path)
+	return len(c.children)
+}
+
+// childrenCount 返回当前子 Actor 数量。
+func (c *Context) childrenCount() int {
+	c.childrenLock.Lock()
+	defer c.childrenLock.Unlock()
+	return len(c.children)
 }
 
 func (c *Context) failed(fault vivid.Message) {
